@@ -116,6 +116,14 @@ def check(ctx: Ctx) -> str:
     inst = [a for a in ast.walk(db.node) if isinstance(a, ast.Assign) and ast.unparse(a.targets[0]) == "self._next" and ast.unparse(a.value) == "partial(next, self._gen)"]
     ctx.check(len(inst) == 1 and not astq.guard_atoms(db.node, inst[0]), "disable_buffering:always", "environment:TemplateStream.disable_buffering", "direct iterator restored", "disable_buffering must restore partial(next, self._gen) unconditionally", db.loc())
 
+    # the stream is its own iterator: every consumer goes through _next, so a buffering change
+    # takes effect for an iteration that is already running
+    ti = repo.func("environment:TemplateStream.__iter__")
+    tn_ = repo.func("environment:TemplateStream.__next__")
+    ri, rn = astq.returns(ti.node), astq.returns(tn_.node)
+    ctx.check(len(ri) == 1 and ast.unparse(ri[0].value) == "self" and len(rn) == 1 and ast.unparse(rn[0].value) == "self._next()", "stream:own-iterator", "environment:TemplateStream.__iter__", f"__iter__ returns {[ast.unparse(r.value) for r in ri if r.value is not None]}",
+              "TemplateStream.__iter__ must return self and __next__ must return self._next(): handing out the underlying generator makes a running `for` loop ignore enable_buffering() / disable_buffering()", ti.loc())
+
     ctx.rule("R3", "dump writes every item of the stream, encoded when an encoding is given")
     dp = repo.func("environment:TemplateStream.dump")
     s = ast.unparse(dp.node)
